@@ -160,6 +160,24 @@ def examine(case):
     ctext = str(chain)
     if ctext != exp:
         F("composition", "chain renders %s but operands in call order with trailing clauses give %s" % (ctext, exp))
+    # operands are the ones THIS chain was given: continuing an intermediate chain elsewhere adds nothing to it
+    import operator
+    OPS = {"+": operator.add, "*": operator.mul, "-": operator.sub}
+    cur = ns.ev(opsrcs[0])
+    for m, s_ in zip(case["meths"], opsrcs[1:]):
+        o_ = ns.ev(s_)
+        nxt = OPS[m](cur, o_) if m in OPS else getattr(cur, m)(o_)
+        if isinstance(cur, ns.queries._SetOperation):
+            cur.union_all(ns.ev(opsrcs[0]))          # a sibling continuation of the same receiver, discarded
+        cur = nxt
+    if case.get("orderby"):
+        cur = cur.orderby("a")
+    if case.get("limit") is not None:
+        cur = cur.limit(case["limit"])
+    if case.get("offset") is not None:
+        cur = cur.offset(case["offset"])
+    if str(cur) != ctext:
+        F("foreign-operand", "the chain built next to sibling continuations renders %s, alone it renders %s" % (str(cur), ctext))
     for o in own:
         if wrap != (o.startswith("(") and o.endswith(")")):
             F("wrapping", "operand %s, wrap_set_operation_queries=%r" % (o, wrap))
